@@ -1,3 +1,7 @@
+import Proofs.DdsFixpoint
+import Proofs.DdsRoundtrip
+import Proofs.DdsText
+import Proofs.DdsTree
 import Proofs.Hyperslab
 import Proofs.Slice
 import Proofs.SliceTuple
